@@ -9,6 +9,7 @@ from ..core import AnalysisError, Cls, Fn, Repo, call_name, calls_in, const_valu
 from ..registry import extract
 from ..report import Check
 from ..terms import Atom, Poly, TermBuilder, expand_phi, mentions, single_atom, walk_atoms
+from ._c18_r3b import ACCUMULATING, buffer_def, flat_view, mass_writes, run_r3b, strong_def, through
 
 RB = "agilerl.algorithms.dqn_rainbow"
 
@@ -18,6 +19,16 @@ def _expr(s: str) -> ast.AST:
 
 
 def run(ck: Check, repo: Repo) -> None:
+    try:
+        _run(ck, repo)
+    except (AttributeError, IndexError, KeyError, TypeError, ValueError) as e:
+        # last resort: a form of the code that an obligation was not written for must never surface as a traceback
+        import traceback
+        fr = traceback.extract_tb(e.__traceback__)[-1]
+        raise AnalysisError(f"C18: unrecognised form of the code (not decided): {type(e).__name__}: {e} [{fr.filename.rsplit('/', 1)[-1]}:{fr.lineno} in {fr.name}]")
+
+
+def _run(ck: Check, repo: Repo) -> None:
     # which distribution is projected: the one of the target network held at entry of learn(), evaluated on the next observations of the SAME (1-step or
     # n-step) batch as reward and done.  These are the C08 obligations on RainbowDQN (batch coherence, soft update after the step); they are taken over here
     from dataclasses import replace
@@ -34,7 +45,7 @@ def run(ck: Check, repo: Repo) -> None:
     ck.obs.extend(taken)
     ck.not_decided += ["conservation of total mass and of the mean as numeric facts (needs sum p = 1 and exact arithmetic)",
                        "behaviour of DuelingDistributionalMLP's softmax clamp"]
-    ck.trusted += ["Tensor.index_add_ accumulates into the receiver at the given flat indices and raises IndexError for an index outside the receiver"]
+    ck.trusted += ["Tensor.index_add_ (scatter_add_ on a 1-d receiver alike) accumulates into the receiver at the given flat indices and raises IndexError for an index outside the receiver"]
     ck.rule("C18.1", "the shifted support is clamped to [v_min, v_max] before the fractional atom index b = (t_z - v_min) / delta_z is formed; "
                      "delta_z = (v_max - v_min)/(num_atoms - 1) and the support is linspace(v_min, v_max, num_atoms)")
     ck.rule("C18.2", "neighbour weights are complementary: the lower atom floor(b) receives p*(upper - b), the upper atom ceil(b) receives p*(b - lower)")
@@ -43,6 +54,8 @@ def run(ck: Check, repo: Repo) -> None:
     ck.rule("C18.5", "the source distribution is the shared network's distribution of the eval network's arg-max next action; the loss is "
                      "-sum(projection * log p(action taken)); new priorities = element-wise loss + prior_eps; the n-step target discounts with gamma**n_step")
     ck.rule("C18.6", "bounded index write: an atom index derived from a floating-point division is clamped to [0, num_atoms - 1] before index_add_")
+    # C18.8 (round 3): every indexed write into the projection buffer accumulates
+    run_r3b(ck, repo)
     fn = repo.fn(RB, "RainbowDQN._dqn_loss")
     cfg = CFG(fn.node)
     tb = TermBuilder(repo, fn, cfg=cfg, depth=1)
@@ -72,12 +85,30 @@ def run(ck: Check, repo: Repo) -> None:
     if len(fl) != 1 or len(ce) != 1:
         raise AnalysisError(f"_dqn_loss: expected one floor and one ceil of the fractional index (found {len(fl)}, {len(ce)})")
     fnode, cnode = cfg.node_of(fl[0]), cfg.node_of(ce[0])
+    if fnode is None or cnode is None or not isinstance(fl[0].func, ast.Attribute) or not isinstance(ce[0].func, ast.Attribute):
+        raise AnalysisError("_dqn_loss: floor / ceil of the fractional index is not a method call in live code (unrecognised form of the projection)")
     Bf = tb.term(fl[0].func.value, fnode)
     Bc = tb.term(ce[0].func.value, cnode)
     ck.ob("C18.2", fn, ce[0], Bf == Bc, "lower and upper atom are floor and ceil of the same fractional index", detail=f"{Bf.key()[:100]} vs {Bc.key()[:100]}")
     B = Bf
-    lo_name = [k for k, _ in cfg.defs_at(fnode)][0]
-    hi_name = [k for k, _ in cfg.defs_at(cnode)][0]
+    # roles, not names: the LOWER index is whatever derives from floor(b) (and not from ceil(b)), the UPPER index whatever derives from ceil(b)
+    _is_floor = lambda a: a.kind == "call" and a.name == "floor"
+    _is_ceil = lambda a: a.kind == "call" and a.name == "ceil"
+
+    def role(t: Poly) -> Optional[str]:
+        lo, hi = mentions(tb, t, _is_floor), mentions(tb, t, _is_ceil)
+        return "lo" if lo and not hi else "hi" if hi and not lo else None
+
+    def index_part(t: Poly) -> Tuple[Poly, Poly]:
+        """an index term split into (the atom index: monomials deriving from floor / ceil, the rest: the per-sample offset)"""
+        a, r = {}, {}
+        for m, c in t.t.items():
+            (a if any(mentions(tb, Poly.atom(k), lambda x: _is_floor(x) or _is_ceil(x)) for k, _ in m) else r)[m] = c
+        return Poly(a), Poly(r)
+
+    # the locals bound by the floor / ceil statements (only used for the "is it clamped" question of C18.6; may be absent)
+    lo_name = next((k for k, _ in cfg.defs_at(fnode)), None)
+    hi_name = next((k for k, _ in cfg.defs_at(cnode)), None)
     # ---- C18.1 form of b
     cl = [a for a, _, _ in walk_atoms(tb, B) if a.kind == "call" and a.name in ("clamp", "clip")]
     dz = tb.term(_expr("self.delta_z"), fnode)
@@ -86,8 +117,11 @@ def run(ck: Check, repo: Repo) -> None:
     ok = False
     detail = f"b = {B.key()[:200]}"
     tz_atom = None
+    dzi = dz.inv()
     for a in cl:
-        cand = (Poly.atom(a.key) - vmin) * dz.inv()
+        if dzi is None:
+            break
+        cand = (Poly.atom(a.key) - vmin) * dzi
         if _strip_index_clamp(tb, B) == cand:
             ok = True
             tz_atom = a
@@ -100,32 +134,43 @@ def run(ck: Check, repo: Repo) -> None:
         hi = kws.get("max", args[1] if len(args) > 1 else None)
         ck.ob("C18.1", fn, n, lo is not None and hi is not None and dotted(lo) == "self.v_min" and dotted(hi) == "self.v_max",
               "the shifted support is clamped to [self.v_min, self.v_max]", detail=f"clamp({short(lo, 30)}, {short(hi, 30)})")
-        inner = tz_atom.sub[0]
+        inner = tz_atom.sub[0] if tz_atom.sub else Poly()
         ck.ob("C18.1", fn, n, "role:reward" in tb.origins(inner) and "attr:self.support" in tb.origins(inner), "what is clamped is reward + discounted support")
 
     reg = extract(repo, RB, "RainbowDQN")
     # ---- C18.2 neighbour weights
-    adds = [c for c in calls_in(fn.node) if last_attr(c) == "index_add_"]
-    ck.ob("C18.2", fn, fn.node, len(adds) == 2, "mass is written by exactly two index_add_ calls (lower and upper atom)", construct="index_add_ calls")
+    adds = [c for c in calls_in(fn.node) if last_attr(c) in ACCUMULATING and isinstance(c.func, ast.Attribute)]
+    ck.ob("C18.2", fn, fn.node, len(adds) == 2, "mass is written by exactly two index_add_ calls (lower and upper atom)",
+          detail=f"found {len(adds)} accumulating writes (index_add_ / scatter_add_)", construct="index_add_ calls")
     roles = {}
+    bufs: List[Optional[Node]] = []  # per write: the `x = zeros(...)` statement whose tensor receives the mass
     for c in adds:
         n = cfg.node_of(c)
-        if len(c.args) != 3:
+        if len(c.args) != 3 or n is None:
             ck.ob("C18.2", fn, c, False, "index_add_(dim, index, source) form")
             continue
         I = tb.term(c.args[1], n)
         W = tb.term(c.args[2], n)
-        is_lo = mentions(tb, I, lambda a: a.kind == "call" and a.name == "floor")
-        is_hi = mentions(tb, I, lambda a: a.kind == "call" and a.name == "ceil")
+        is_lo = mentions(tb, I, _is_floor)
+        is_hi = mentions(tb, I, _is_ceil)
         ck.ob("C18.2", fn, c, is_lo != is_hi, "the index derives from exactly one of floor(b) / ceil(b)")
         roles[c] = ("lo" if is_lo else "hi", I, W, n)
-        ck.ob("C18.4", fn, c, const_value(c.args[0]) == 0 and last_attr(c.func.value) in ("view", "reshape", "flatten"), "mass is accumulated into the flattened projection along dim 0")
-    ck.ob("C18.2", fn, adds[0] if adds else fn.node, len(roles) == 2 and {r[0] for r in roles.values()} == {"lo", "hi"},
+        # the receiver is a flat view of the projection, taken in place or once into a temporary (`flat = proj.view(-1)`)
+        fv = flat_view(cfg, c.func.value, n)
+        bufs.append(buffer_def(cfg, fv[0].func.value, fv[1]) if fv is not None else None)
+        ck.ob("C18.4", fn, c, const_value(c.args[0]) == 0 and fv is not None, "mass is accumulated into the flattened projection along dim 0")
+    paired = len(roles) == 2 and {r[0] for r in roles.values()} == {"lo", "hi"}
+    ck.ob("C18.2", fn, adds[0] if adds else fn.node, paired,
           "one write addresses the lower atom and the other the upper atom", detail=f"index kinds: {[r[0] for r in roles.values()]}", construct="lower/upper write pair")
-    if len(roles) == 2 and {r[0] for r in roles.values()} == {"lo", "hi"}:
-        for c, (which, I, W, n) in roles.items():
-            lo_t = tb.term(ast.Name(id=lo_name, ctx=ast.Load()), n)
-            hi_t = tb.term(ast.Name(id=hi_name, ctx=ast.Load()), n)
+    idx_of: Dict[str, Poly] = {}  # role -> the atom index as written (offset removed)
+    if paired:
+        for c, (which, I, W, n) in list(roles.items()):
+            part, off = index_part(I)
+            idx_of[which] = part
+            roles[c] = roles[c] + (off,)
+        for c, (which, I, W, n, off) in roles.items():
+            # the weights are stated over the indices AS WRITTEN by the two writes (after the fix-up), whatever the locals are called
+            lo_t, hi_t = idx_of["lo"], idx_of["hi"]
             P = [k for k in W.atoms() if k in tb.atoms and "role:next_obs" in tb.atoms[k].origins and k not in B.atoms()]
             okp = len(P) == 1
             want = None
@@ -135,47 +180,48 @@ def run(ck: Check, repo: Repo) -> None:
             ck.ob("C18.2", fn, c, okp and W == want,
                   f"the {'lower' if which == 'lo' else 'upper'} atom receives source probability times ({'upper - b' if which == 'lo' else 'b - lower'})",
                   detail=f"weight = {W.key()[:180]}" + (f" ; expected {want.key()[:180]}" if want is not None else ""))
-            off = I - (lo_t if which == "lo" else hi_t)
-            roles[c] = roles[c] + (off,)
         offs = [r[4] for r in roles.values() if len(r) > 4]
-        ck.ob("C18.4", fn, adds[0], len(offs) == 2 and offs[0] == offs[1] and len(offs[0].t) == 1, "both writes use the same per-sample offset", detail=" / ".join(o.key()[:80] for o in offs))
+        ck.ob("C18.4", fn, next(iter(roles)), len(offs) == 2 and offs[0] == offs[1] and len(offs[0].t) == 1, "both writes use the same per-sample offset", detail=" / ".join(o.key()[:80] for o in offs))
         # ---- C18.4 stride
         if offs:
-            _offset(ck, tb, fn, cfg, offs[0], roles[adds[0]][3])
-    # projection buffer shape
-    z = [n for n in cfg.live_nodes() if n.kind == "stmt" and isinstance(n.ast, ast.Assign) and isinstance(n.ast.value, ast.Call) and call_name(n.ast.value) in ("torch.zeros", "torch.zeros_like")
-         and adds and dotted(n.ast.targets[0]) == dotted(adds[0].func.value.func.value)]
+            first = next(iter(roles))
+            _offset(ck, tb, fn, cfg, offs[0], first.args[1], roles[first][3])
+    # projection buffer shape: both writes go into ONE zeros(...) tensor, whose shape is taken from the source distribution
+    if not bufs:  # no index_add_ at all (reported above): the buffer is still the zeros(...) tensor that receives the indexed writes
+        bufs = [w[2] for w in mass_writes(cfg, tb, fn)]
+    z = bufs[0] if bufs and bufs[0] is not None and all(b is bufs[0] for b in bufs) else None
     # "the source distribution" by role: a local whose definition reaching the zeros(...) statement is the shared network's
     # distribution call or the row selection out of it (sel below), whatever it is called
-    ok = bool(z) and any(isinstance(x, ast.Name) and any(_is_source_def(cfg, d, reg.shared_attrs()) for d in cfg.defs_reaching(z[0], x.id))
-                         for x in ast.walk(z[0].ast.value))
-    ck.ob("C18.4", fn, z[0].ast if z else fn.node, ok, "the projection starts from zeros shaped like the source distribution")
+    ok = z is not None and any(isinstance(x, ast.Name) and any(_is_source_def(cfg, d, reg.shared_attrs()) for d in cfg.defs_reaching(z, x.id))
+                               for x in ast.walk(z.ast.value))
+    ck.ob("C18.4", fn, z.ast if z is not None else fn.node, ok, "the projection starts from zeros shaped like the source distribution")
 
-    # ---- C18.3 fix-up
+    # ---- C18.3 fix-up: in-place corrections `idx[mask] -= 1` / `idx[mask] += 1` of a tensor that derives from floor(b) / ceil(b)
     fix = [n for n in cfg.live_nodes() if n.kind == "stmt" and isinstance(n.ast, ast.AugAssign) and isinstance(n.ast.target, ast.Subscript)
-           and dotted(n.ast.target.value) in (lo_name, hi_name)]
+           and role(tb.strip_updates(tb.term(n.ast.target.value, n))) is not None]
     ck.ob("C18.3", fn, fn.node, len(fix) == 2, "two fix-up statements handle integral b", construct="fix-up statements")
     if len(fix) == 2:
         f1, f2 = sorted(fix, key=lambda n: n.lineno)
-        N1 = tb.term(_expr("self.num_atoms - 1"), f1)
-        def mask_terms(n):
-            m = n.ast.target.slice
-            parts = []
-            if isinstance(m, ast.BinOp) and isinstance(m.op, (ast.Mult, ast.BitAnd)):
-                parts = [m.left, m.right]
-            return [ast.unparse(p).replace(" ", "").replace("(", "").replace(")", "") for p in parts]
-        m1, m2 = mask_terms(f1), mask_terms(f2)
-        eq = {f"{lo_name}=={hi_name}", f"{hi_name}=={lo_name}"}
-        ok1 = dotted(f1.ast.target.value) == lo_name and isinstance(f1.ast.op, ast.Sub) and const_value(f1.ast.value) == 1 and any(x in eq for x in m1) and any(x in (f"{hi_name}>0", f"0<{hi_name}") for x in m1)
-        ok2 = dotted(f2.ast.target.value) == hi_name and isinstance(f2.ast.op, ast.Add) and const_value(f2.ast.value) == 1 and any(x in eq for x in m2) \
-            and any(x == f"{lo_name}<self.num_atoms-1" for x in m2)
-        ck.ob("C18.3", fn, f1.ast, ok1, "first: lower -= 1 where (upper > 0) and (lower == upper)", detail=f"mask {m1}")
-        ck.ob("C18.3", fn, f2.ast, ok2, "then: upper += 1 where (lower < num_atoms - 1) and (lower == upper)", detail=f"mask {m2}")
-        ck.ob("C18.3", fn, f2.ast, cfg.dominates(f1, f2) and all(cfg.dominates(f2, cfg.node_of(c)) for c in adds), "the order is lower-fix, upper-fix, then the two writes")
+        r1, r2 = (role(tb.strip_updates(tb.term(f.ast.target.value, f))) for f in (f1, f2))
+        # the two index tensors, named by role: what the lowering fix-up corrects / what the raising fix-up corrects
+        LOe = next((f.ast.target.value for f, r in ((f1, r1), (f2, r2)) if r == "lo"), None)
+        HIe = next((f.ast.target.value for f, r in ((f1, r1), (f2, r2)) if r == "hi"), None)
+        ok1 = r1 == "lo" and isinstance(f1.ast.op, ast.Sub) and const_value(f1.ast.value) == 1 and _fix_mask(tb, cfg, f1, LOe, HIe, "low")
+        ok2 = r2 == "hi" and isinstance(f2.ast.op, ast.Add) and const_value(f2.ast.value) == 1 and _fix_mask(tb, cfg, f2, LOe, HIe, "high")
+        ck.ob("C18.3", fn, f1.ast, ok1, "first: lower -= 1 where (upper > 0) and (lower == upper)", detail=f"mask `{short(f1.ast.target.slice, 100)}`")
+        ck.ob("C18.3", fn, f2.ast, ok2, "then: upper += 1 where (lower < num_atoms - 1) and (lower == upper)",
+              detail=f"mask `{short(f2.ast.target.slice, 100)}` (lower == upper has to be evaluated on the indices as they are after the first fix-up)")
+        # ... and the indices the writes address are the corrected ones: they are the fix-up targets as they are at the write, and the update made by
+        # the fix-up statement reaches them (a re-binding of the index to a copy taken before the fix-up would undo it)
+        fixed = LOe is not None and HIe is not None and all(
+            idx_of.get(w) is None or (idx_of[w] == tb.term(e, n) and mentions(tb, idx_of[w], lambda a, f=f: a.kind == "upd" and a.node is f.ast))
+            for _, (w, _I, _W, n, *_r) in roles.items() for e, f in ([(LOe, f1)] if w == "lo" else [(HIe, f2)]))
+        ck.ob("C18.3", fn, f2.ast, cfg.dominates(f1, f2) and all(cfg.node_of(c) is not None and cfg.dominates(f2, cfg.node_of(c)) for c in adds) and fixed,
+              "the order is lower-fix, upper-fix, then the two writes")
 
     # ---- C18.6 bounded index
-    bounded = _index_clamped(tb, B, fn) or any(_name_clamped(cfg, fn, nm) for nm in (lo_name, hi_name))
-    both = _index_clamped(tb, B, fn) or all(_name_clamped(cfg, fn, nm) for nm in (lo_name, hi_name))
+    bounded = _index_clamped(tb, B, fn) or any(_name_clamped(cfg, fn, nm) for nm in (lo_name, hi_name) if nm is not None)
+    both = _index_clamped(tb, B, fn) or all(nm is not None and _name_clamped(cfg, fn, nm) for nm in (lo_name, hi_name))
     ck.ob("C18.6", fn, fl[0], both,
           "the fractional index (or both integer indices) is clamped to [0, num_atoms - 1] before it addresses the projection",
           detail="b = (t_z - v_min)/delta_z is a float32 quotient with a float64-derived delta_z: for many (num_atoms, v_min, v_max) a target that "
@@ -192,6 +238,8 @@ def run(ck: Check, repo: Repo) -> None:
     ok = False
     for c in am:
         n = cfg.node_of(c)
+        if n is None or not isinstance(c.func, ast.Attribute):
+            continue
         t = tb.term(c.func.value, n)
         a = single_atom(tb, t)
         ok = a is not None and a.kind == "call" and a.name in evals and "next_obs" in tb.roles(t) and const_value(c.args[0] if c.args else get_kw(c, "dim")) == 1
@@ -202,12 +250,14 @@ def run(ck: Check, repo: Repo) -> None:
     ok = False
     for n in sel:
         e = n.ast.value.slice.elts
-        t1 = tb.term(e[1], n)
-        ok = len(e) == 2 and ast.unparse(e[0]) == "range(self.batch_size)" and mentions(tb, t1, lambda a: a.kind == "call" and a.name == "argmax")
+        ok = len(e) == 2 and ast.unparse(e[0]) == "range(self.batch_size)" and mentions(tb, tb.term(e[1], n), lambda a: a.kind == "call" and a.name == "argmax")
     ck.ob("C18.5", fn, sel[0].ast if sel else fn.node, ok, "row i of the source is the shared network's distribution for sample i's arg-max action")
     # loss
     rets = [n for n in cfg.live_nodes() if n.kind == "stmt" and isinstance(n.ast, ast.Return)]
     for r in rets:
+        if r.ast.value is None:
+            ck.ob("C18.5", fn, r.ast, False, "the element-wise loss is -sum over atoms of projection * log-probability of the action taken", detail="a bare return")
+            continue
         t = tb.term(r.ast.value, r)
         a = None
         neg = -t
@@ -222,7 +272,7 @@ def run(ck: Check, repo: Repo) -> None:
             ok = len(prod.t) == 1 and len(logp) == 1 and len(proj) == 1 and "actions" in tb.atoms[logp[0]].key
         ck.ob("C18.5", fn, r.ast, ok, "the element-wise loss is -sum over atoms of projection * log-probability of the action taken", detail=t.key()[:200])
     lp = [c for c in calls_in(fn.node) if dotted(c.func).startswith("self.") and dotted(c.func)[5:] in evals and const_value(get_kw(c, "log")) is True]
-    ck.ob("C18.5", fn, lp[0] if lp else fn.node, len(lp) == 1 and const_value(get_kw(lp[0], "q")) is False and "obs" in tb.roles(tb.term(lp[0], cfg.node_of(lp[0])))
+    ck.ob("C18.5", fn, lp[0] if lp else fn.node, len(lp) == 1 and bool(lp[0].args) and const_value(get_kw(lp[0], "q")) is False and "obs" in tb.roles(tb.term(lp[0], cfg.node_of(lp[0])))
           and "next_obs" not in tb.roles(tb.term(lp[0].args[0], cfg.node_of(lp[0]))),
           "log-probabilities come from the eval network on the current observation")
     _learn(ck, repo)
@@ -268,22 +318,73 @@ def _name_clamped(cfg: CFG, fn: Fn, name: str) -> bool:
                 and last_attr(n.ast.value) in ("clamp", "clip", "clamp_") and "num_atoms" in ast.unparse(n.ast.value):
             return True
         if n.kind == "stmt" and isinstance(n.ast, ast.Expr) and isinstance(n.ast.value, ast.Call) and last_attr(n.ast.value) == "clamp_" \
-                and dotted(n.ast.value.func.value) == name and "num_atoms" in ast.unparse(n.ast.value):
+                and isinstance(n.ast.value.func, ast.Attribute) and dotted(n.ast.value.func.value) == name and "num_atoms" in ast.unparse(n.ast.value):
             return True
     return False
 
 
-def _offset(ck: Check, tb: TermBuilder, fn: Fn, cfg: CFG, off: Poly, at: Node) -> None:
+def _conj(cfg: CFG, e: ast.AST, at: Node, _depth: int = 0) -> List[Tuple[ast.AST, Node]]:
+    """the conjuncts of a boolean tensor mask (`a * b`, `a & b`, `torch.logical_and(a, b)`, `a.logical_and(b)`), looking through temporaries:
+    (expression, node at which it is evaluated)."""
+    e, at = through(cfg, e, at)
+    if _depth < 4:
+        if isinstance(e, ast.BinOp) and isinstance(e.op, (ast.Mult, ast.BitAnd)):
+            return _conj(cfg, e.left, at, _depth + 1) + _conj(cfg, e.right, at, _depth + 1)
+        if isinstance(e, ast.Call) and call_name(e) in ("torch.logical_and", "torch.mul", "torch.bitwise_and") and len(e.args) == 2 and not e.keywords:
+            return _conj(cfg, e.args[0], at, _depth + 1) + _conj(cfg, e.args[1], at, _depth + 1)
+        if isinstance(e, ast.Call) and isinstance(e.func, ast.Attribute) and e.func.attr in ("logical_and", "mul", "bitwise_and") and len(e.args) == 1 \
+                and not e.keywords and dotted(e.func.value) != "torch":
+            return _conj(cfg, e.func.value, at, _depth + 1) + _conj(cfg, e.args[0], at, _depth + 1)
+    return [(e, at)]
+
+
+def _fix_mask(tb: TermBuilder, cfg: CFG, f: Node, LOe: Optional[ast.AST], HIe: Optional[ast.AST], bound: str) -> bool:
+    """The mask of fix-up statement f is `(lower == upper) and (index > 0)` (bound = "low") resp. `(lower == upper) and (index < num_atoms - 1)`
+    (bound = "high"), where lower / upper are the two index tensors AS THEY ARE when f runs (a mask computed before an earlier fix-up is stale) and
+    `index` is either of them (they are equal where the mask holds).  Decided on terms: spelling, operand order and temporaries do not matter."""
+    if LOe is None or HIe is None:
+        return False
+    lo_t, hi_t = tb.term(LOe, f), tb.term(HIe, f)
+    atoms = [single_atom(tb, tb.term(e, n)) for e, n in _conj(cfg, f.ast.target.slice, f)]
+    if len(atoms) != 2 or any(a is None or a.kind != "cmp" or len(a.sub) != 2 for a in atoms):
+        return False
+    eq = [a for a in atoms if a.name == "Eq" and ((a.sub[0] == lo_t and a.sub[1] == hi_t) or (a.sub[0] == hi_t and a.sub[1] == lo_t))]
+    rest = [a for a in atoms if not any(a is x for x in eq)]
+    if len(eq) != 1 or len(rest) != 1:
+        return False
+    r = rest[0]
+    x, y = r.sub
+    is_idx = lambda t: t == lo_t or t == hi_t
+    if bound == "low":  # comparisons are loaded as `<` / `<=` (core.canonicalise_comparisons)
+        return (r.name == "Lt" and x == Poly.const(0) and is_idx(y)) or (r.name == "LtE" and x == Poly.const(1) and is_idx(y))
+    n1 = tb.term(_expr("self.num_atoms - 1"), f)
+    return (r.name == "Lt" and is_idx(x) and y == n1) or (r.name == "LtE" and is_idx(x) and y == n1 - Poly.const(1))
+
+
+def _closure_calls(cfg: CFG, e: ast.AST, at: Node, out: List[Tuple[ast.Call, Node]], _depth: int = 0) -> List[Tuple[ast.Call, Node]]:
+    """the calls on the def-use chain of expression e: in e itself and in the values of the single-definition temporaries it reads."""
+    for x in [e] + list(walk_no_nested(e)):
+        if isinstance(x, ast.Call):
+            out.append((x, at))
+        elif isinstance(x, ast.Name) and _depth < 6:
+            d = strong_def(cfg, at, x.id)
+            v = cfg.value_of_def(d, x.id) if d is not None else None
+            if v is not None and not any(v is c for c, _ in out):
+                _closure_calls(cfg, v, d, out, _depth + 1)
+    return out
+
+
+def _offset(ck: Check, tb: TermBuilder, fn: Fn, cfg: CFG, off: Poly, idx: ast.AST, at: Node) -> None:
+    """off: the per-sample offset term (value-neutral adapters such as long / unsqueeze / expand / view are already stripped by the term builder);
+    idx: the index argument of a write (its def-use chain contains the broadcast of the offset)."""
     a = single_atom(tb, off)
-    node = None
-    while a is not None and a.kind == "call" and a.name in ("expand", "unsqueeze", "long", "view", "reshape"):
-        a = single_atom(tb, a.sub[0]) if a.sub else None
     ok = False
     detail = off.key()[:160]
     if a is not None and a.kind == "call" and "linspace" in a.key.split("(")[0]:
         n = a.node
-        if isinstance(n, ast.Call) and len(n.args) >= 3:
-            s, e, k = (tb.term(x, at) for x in n.args[:3])
+        if isinstance(n, ast.Call) and len(n.args) >= 3 and len(a.sub) >= len(n.args) + len(n.keywords):
+            k0 = len(a.sub) - len(n.args) - len(n.keywords)  # sub = [receiver / callee] + positional + keyword argument terms
+            s, e, k = a.sub[k0:k0 + 3]
             N = tb.term(_expr("self.num_atoms"), at)
             ok = s == Poly.const(0) and e == (k - Poly.const(1)) * N and k == tb.term(_expr("self.batch_size"), at)
             detail = f"linspace({s.key()}, {e.key()[:60]}, {k.key()[:40]})"
@@ -291,8 +392,10 @@ def _offset(ck: Check, tb: TermBuilder, fn: Fn, cfg: CFG, off: Poly, at: Node) -
         ok = "num_atoms" in off.key()
     ck.ob("C18.4", fn, a.node if a is not None and a.node is not None else fn.node, ok,
           "sample i's atoms are written at flat offset i * num_atoms (batch_size rows)", detail=detail)
-    ex = [c for c in calls_in(fn.node) if last_attr(c) == "expand" and "linspace" in ast.unparse(c)]
-    ck.ob("C18.4", fn, ex[0] if ex else fn.node, bool(ex) and [ast.unparse(x) for x in ex[0].args] == ["self.batch_size", "self.num_atoms"],
+    # the broadcast: an expand(...) on the way from the offset to the index whose receiver IS the offset
+    ex = [(c, n) for c, n in _closure_calls(cfg, idx, at, []) if last_attr(c) == "expand" and isinstance(c.func, ast.Attribute) and tb.term(c.func.value, n) == off]
+    want = [tb.term(_expr("self.batch_size"), at), tb.term(_expr("self.num_atoms"), at)]
+    ck.ob("C18.4", fn, ex[0][0] if ex else fn.node, bool(ex) and [tb.term(x, ex[0][1]) for x in ex[0][0].args] == want,
           "the offset is broadcast over the atoms of its sample (batch_size x num_atoms)")
 
 
@@ -413,4 +516,34 @@ VARIANTS = [
      "            loss_for_prior = elementwise_loss.detach().cpu().numpy()\n            prios = loss_for_prior + self.prior_eps\n            return loss.item(), idxs, prios\n\n        return loss.item(), idxs, None", "silent", None),
     ("clamp-L-u-ok", _RF, ".clamp(0, self.num_atoms - 1)\n\n            # Find the neighbouring indices of b\n            L = b.floor().long()\n            u = b.ceil().long()\n",
      "\n\n            # Find the neighbouring indices of b\n            L = b.floor().long()\n            u = b.ceil().long()\n            L = L.clamp(0, self.num_atoms - 1)\n            u = u.clamp(0, self.num_atoms - 1)\n", "silent", None),
+    # ---- round 3b
+    ("projection-fancy-index-augassign", _RF, "            proj_dist.view(-1).index_add_(\n                0, (L + offset).view(-1), (target_q_dist * (u.float() - b)).view(-1)\n            )\n",
+     "            proj_dist.view(-1)[(L + offset).view(-1)] += (target_q_dist * (u.float() - b)).view(-1)\n", "fire", "C18.8"),
+    ("projection-index-put-without-accumulate", _RF, "            proj_dist.view(-1).index_add_(\n                0, (u + offset).view(-1), (target_q_dist * (b - L.float())).view(-1)\n            )\n",
+     "            proj_dist.view(-1).index_put_(((u + offset).view(-1),), (target_q_dist * (b - L.float())).view(-1))\n", "fire", "C18.8"),
+    ("projection-scatter-add-ok", _RF, "            proj_dist.view(-1).index_add_(\n                0, (u + offset).view(-1), (target_q_dist * (b - L.float())).view(-1)\n            )\n",
+     "            proj_dist.view(-1).scatter_add_(\n                0, (u + offset).view(-1), (target_q_dist * (b - L.float())).view(-1)\n            )\n", "silent", None),
+    ("projection-flat-view-temporary-ok", _RF,
+     "            proj_dist.view(-1).index_add_(\n                0, (L + offset).view(-1), (target_q_dist * (u.float() - b)).view(-1)\n            )\n            proj_dist.view(-1).index_add_(\n",
+     "            flat = proj_dist.view(-1)\n            flat.index_add_(\n                0, (L + offset).view(-1), (target_q_dist * (u.float() - b)).view(-1)\n            )\n            flat.index_add_(\n", "silent", None),
+    ("projection-readable-locals-and-temporaries-ok", _RF,
+     "            L = b.floor().long()\n            u = b.ceil().long()\n\n            # Shape of projected q distribution is (batch_size, num_atoms) as we have argmaxed over actions\n            # Fix disappearing probability mass\n"
+     "            L[(u > 0) * (L == u)] -= 1\n            u[(L < (self.num_atoms - 1)) * (L == u)] += 1\n            offset = (\n                torch.linspace(\n                    0,\n"
+     "                    (self.batch_size - 1) * self.num_atoms,\n                    self.batch_size,\n                    device=self.device,\n                )\n                .long()\n"
+     "                .unsqueeze(1)\n                .expand(self.batch_size, self.num_atoms)\n            )\n            proj_dist = torch.zeros(target_q_dist.size(), device=self.device)\n\n"
+     "            proj_dist.view(-1).index_add_(\n                0, (L + offset).view(-1), (target_q_dist * (u.float() - b)).view(-1)\n            )\n"
+     "            proj_dist.view(-1).index_add_(\n                0, (u + offset).view(-1), (target_q_dist * (b - L.float())).view(-1)\n            )\n",
+     "            lower = b.floor().long()\n            upper = b.ceil().long()\n            lower[(upper > 0) * (lower == upper)] -= 1\n            upper[(lower < (self.num_atoms - 1)) * (lower == upper)] += 1\n"
+     "            lower_mass = target_q_dist * (upper.float() - b)\n            upper_mass = target_q_dist * (b - lower.float())\n            last_row_start = (self.batch_size - 1) * self.num_atoms\n"
+     "            row_start = torch.linspace(0, last_row_start, self.batch_size, device=self.device).long()\n            offset = row_start.unsqueeze(1).expand(self.batch_size, self.num_atoms)\n"
+     "            proj_dist = torch.zeros(target_q_dist.size(), device=self.device)\n            flat_proj_dist = proj_dist.view(-1)\n"
+     "            flat_proj_dist.index_add_(0, (lower + offset).view(-1), lower_mass.view(-1))\n            flat_proj_dist.index_add_(0, (upper + offset).view(-1), upper_mass.view(-1))\n", "silent", None),
+    ("fixup-undone-by-rebinding-to-earlier-copies", _RF,
+     "            L[(u > 0) * (L == u)] -= 1\n            u[(L < (self.num_atoms - 1)) * (L == u)] += 1\n            offset = (\n",
+     "            L0, u0 = L.clone(), u.clone()\n            L[(u > 0) * (L == u)] -= 1\n            u[(L < (self.num_atoms - 1)) * (L == u)] += 1\n            L, u = L0, u0\n            offset = (\n", "fire", "C18.3"),
+    ("fixup-mask-respelled-ok", _RF, "            L[(u > 0) * (L == u)] -= 1\n            u[(L < (self.num_atoms - 1)) * (L == u)] += 1\n",
+     "            L[(L == u) & (0 < L)] -= 1\n            same = u == L\n            u[same & (u <= self.num_atoms - 2)] += 1\n", "silent", None),
+    ("fixup-stale-equality-mask", _RF, "            L[(u > 0) * (L == u)] -= 1\n            u[(L < (self.num_atoms - 1)) * (L == u)] += 1\n",
+     "            on_atom = L == u\n            L[on_atom & (u > 0)] -= 1\n            u[on_atom & (u < (self.num_atoms - 1))] += 1\n", "fire", "C18.3"),
+    ("offset-broadcast-over-batch", _RF, "                .expand(self.batch_size, self.num_atoms)\n", "                .expand(self.batch_size, self.batch_size)\n", "fire", "C18.4"),
 ]
